@@ -238,6 +238,20 @@ class SpecMixin:
                 mod, _, cn = a.value.rpartition(".")
                 classes.append(getattr(importlib.import_module(mod), cn))
             return self.unit.ref_isinstance(self, v, tuple(classes))
+        if name in ("srcidx", "keptat"):
+            # the ghost index map of a filtered comprehension (see Unit.sym_filter): srcidx(out, k) = position in the source
+            # list of the k-th kept element; keptat(out, j) = position in `out` of source element j (when it is kept)
+            lst = self.eval(n.args[0])
+            fo = getattr(lst, "filter_of", None)
+            if fo is None:
+                raise GenError("%s: the list is not the result of a filtering comprehension" % name)
+            return self.wrap(fo[1 if name == "srcidx" else 2](self.zi(self.eval(n.args[1]))), "int")
+        if name == "filtersrc":
+            lst = self.eval(n.args[0])
+            fo = getattr(lst, "filter_of", None)
+            if fo is None:
+                raise GenError("filtersrc: the list is not the result of a filtering comprehension")
+            return fo[0]
         if name == "isnone":
             v = self.eval(n.args[0])
             return self.eq(v, None)
